@@ -216,6 +216,12 @@ class GateCompiler(object):
         If there is idling time, add zeros properly to prevent wrong spline.
         """
         min_step_size = np.inf
+        # Two times are taken to be equal if they differ by less than the
+        # rounding of the scheduled start times (relative to the largest one).
+        time_tol = 1.0e-12 * max(
+            [abs(inst[0]) for insts in pulse_instructions for inst in insts],
+            default=0.0,
+        )
         # Concatenate tlist and coeffs for each control pulses
         compiled_tlist = [[] for tmp in range(num_controls)]
         compiled_coeffs = [[] for tmp in range(num_controls)]
@@ -240,7 +246,7 @@ class GateCompiler(object):
 
                 # If there is idling time between the last pulse and
                 # the current one, we need to add zeros in between.
-                if np.abs(start_time - last_pulse_time) > step_size * 1.0e-6:
+                if np.abs(start_time - last_pulse_time) > time_tol:
                     idling_tlist = self._process_idling_tlist(
                         pulse_mode, start_time, last_pulse_time, step_size
                     )
